@@ -7,6 +7,7 @@ import (
 	"encoding/hex"
 	"encoding/json"
 	"fmt"
+	"os"
 	"time"
 )
 
@@ -37,6 +38,7 @@ type Loop struct {
 	seen    map[string]int // violation signature -> count
 	MaxRepl int
 	StepNow int64
+	cur     *os.File
 	Stop    bool // set by an engine when the process is no longer usable (leaked blocked goroutines)
 }
 
@@ -114,4 +116,26 @@ func Truncate(s string, n int) string {
 		return s
 	}
 	return s[:n] + fmt.Sprintf("...(+%d bytes)", len(s)-n)
+}
+
+// Current records the case about to be executed in <outdir>/current.<worker>.json. A fatal
+// runtime error in the code under test (stack exhaustion, concurrent map writes, out of
+// memory) cannot be recovered: the process is gone, and the driver finds the case here.
+func (l *Loop) Current(caseSeed uint64, c any) {
+	if l.Opts.OutDir == "" {
+		return
+	}
+	if l.cur == nil {
+		f, err := os.OpenFile(fmt.Sprintf("%s/current.%d.json", l.Opts.OutDir, l.Opts.Worker), os.O_CREATE|os.O_RDWR|os.O_TRUNC, 0o644)
+		if err != nil {
+			return
+		}
+		l.cur = f
+	}
+	b, err := json.Marshal(map[string]any{"case_seed": caseSeed, "step": l.StepNow, "case": c})
+	if err != nil {
+		return
+	}
+	l.cur.Truncate(0)
+	l.cur.WriteAt(b, 0)
 }
